@@ -18,7 +18,8 @@ from pane.converters import UnionConverter
 from pane.errors import ParseInterrupt, SumErrorNode
 
 from hlib import (obligation, crosshair_exc, eqv, gv, gvf, GV_SIG, GV_ARGS, GV_PRE, GVF_SIG, GVF_ARGS, GVF_PRE)
-from props.shared import P1, P2, PT, E1
+from props.shared import P1, P2, PT, E1, EI
+from pane.types import ValueOrList
 
 
 class DA(PaneBase):
@@ -63,6 +64,9 @@ UNIONS = {
     'int_list_p1': (int, float, t.List[int], P1),
     'enum_str': (E1, str),
     'listint_liststr': (t.List[int], t.List[str]),
+    'vol_str': (ValueOrList[int], str),                 # a member whose own converter is a union (with a constructor)
+    'none_vol': (type(None), ValueOrList[int]),
+    'enumi_str': (EI, t.List[EI], str),
 }
 VOCAB = {'da_db': ('a', 'b', 'c'), 'db_da': ('a', 'b', 'c'), 'dc_da': ('a', 'b', 'zz'), 'dict_struct': ('a', 'b', ''),
          'struct_dict': ('a', 'b', ''), 'int_list_p1': ('a', 'b', 'zz'), 'list_pt2': ('a', 'b', 'zz'), 'pt2_list': ('a', 'b', 'zz')}
@@ -209,6 +213,7 @@ WIT = {
     'pt2_list': {'A': (0, -2), 'B': (0,)}, 'da_db': {'A': (0, -2), 'C': (0, -1)}, 'db_da': {'A': (0, -2)},
     'dc_da': {'A': (0, -2)}, 'dict_struct': {'A': (0, -2)}, 'struct_dict': {'A': (0, -1, -2)},
     'int_list_p1': {'A': (0, -1, -2)}, 'enum_str': {'A': (0, -1, -2)}, 'listint_liststr': {'A': (0, -1, -2)},
+    'vol_str': {'A': (0, -1, -2)}, 'none_vol': {'A': (0, -1, -2)}, 'enumi_str': {'A': (0, -1, -2)},
 }
 for _n in UNIONS:
     _vocab = repr(VOCAB.get(_n, ('a', 'b', 'zz'))) + (', True' if _n in SMALL else '')
@@ -221,3 +226,53 @@ for _n in UNIONS:
         exec(_GEN.format(name=_n, grp='F', sig=GVF_SIG, args=GVF_ARGS, pre=GVF_PRE + (' and kt != 0' if 'complex' in _mem else ''),
                          builder='gvf', vocab=repr(VOCAB.get(_n, ('a', 'b', 'zz'))),
                          wit=(), timeout=90, deep='False', members=_mem, tiers=('quick', 'thorough')))
+
+
+# ------------------------------------------------------------------ serialisation does not depend on what was serialised before
+
+HIST = {
+    'lists': (t.List[int], t.List[str]),
+    'dicts': (t.Dict[str, int], t.Dict[str, str]),
+    'tuples': (t.Tuple[int, str], t.Tuple[str, int]),
+}
+HCONV = {n: make_converter(t.Union[m]) for (n, m) in HIST.items()}
+HMEM = {n: tuple(make_converter(x) for x in m) for (n, m) in HIST.items()}
+
+
+def hist_value(name, which, i, s):
+    if len(s) > 2:
+        raise OutOfBound()
+    if name == 'lists':
+        return [i, i] if which == 0 else [s]
+    elif name == 'dicts':
+        return {'k': i} if which == 0 else {'k': s}
+    else:
+        return (i, s) if which == 0 else (s, i)
+
+
+@obligation(pre="0 <= name <= 2 and 0 <= first <= 1", witnesses=(0,), timeout=120)
+def body_into_data_history(name: int, first: int, i: int, s: str) -> int:
+    """serialising a union value gives the same data whatever value of the same Python type was serialised just before"""
+    n = 'lists' if name == 0 else ('dicts' if name == 1 else 'tuples')
+    U = HCONV[n]
+    a = U.try_convert(hist_value(n, first, i, s))
+    b = U.try_convert(hist_value(n, 1 - first, i, s))
+    try:
+        U.into_data(a)
+        d = U.into_data(b)
+    except Exception as e:
+        if crosshair_exc(e):
+            raise
+        return 7
+    want = HMEM[n][1 - first].into_data(b)
+    if not eqv(d, want):
+        return 6
+    return 0
+
+
+from hlib import OutOfBound
+for _a in ((0, 0, 1, 'a'), (1, 1, 1, 'a'), (2, 0, 1, 'a')):
+    try:
+        body_into_data_history(*_a)
+    except Exception:
+        pass
